@@ -5,7 +5,9 @@
    reference that make it recognisably the documented semantics; each holds for every sub-term
    evaluator `ev`, hence at every fuel. *)
 From Coq Require Import List Bool String.
-From ChaiV Require Import Ast EvalDefs Eval EvalMeta EvalLaws.
+From ChaiV Require Import Ast EvalDefs Eval EvalMeta EvalLaws EvalClassLaws.
+Import ListNotations.
+Local Open Scope string_scope.
 
 Theorem C03_and_short_circuit :
   forall (ev : ast -> M dloc) k n s l s1,
@@ -52,3 +54,41 @@ Theorem C03_function_scope :
   forall c ops f k A (p : prog A) s r s', run (eval c ops f) k (Framed p) s = (r, s') -> s_stacks s' = s_stacks s.
 Proof. exact framed_leaves_no_names. Qed.
 Print Assumptions C03_function_scope.
+
+(* ---- script-defined classes *)
+(* a parameter typed with a class name (any name that is not a registered type) accepts exactly the objects of that class:
+   not numbers, strings, containers, functions, and not the objects of another class *)
+Theorem C03_class_typed_parameter :
+  forall cls o, is_class_name cls ->
+    (param_match cls o = PMYes <-> exists attrs, o = Some (ODyn cls attrs)) /\
+    (param_match cls o = PMYes \/ param_match cls o = PMNo).
+Proof. exact class_param_accepts_only_its_objects. Qed.
+Print Assumptions C03_class_typed_parameter.
+Example C03_class_name_example : is_class_name "Point" /\ param_match "Point" (Some (OStr "s")) = PMNo
+                                 /\ param_match "Point" (Some (ODyn "Point" [])) = PMYes /\ param_match "Point" (Some (ODyn "Other" [])) = PMNo.
+Proof. repeat split; try reflexivity. discriminate. Qed.
+
+(* a method of one class is not entered with anything but an object of that class as `this`; nothing is evaluated and nothing changes *)
+Theorem C03_method_refuses_other_classes :
+  forall (ev : ast -> M dloc) k cl cls pts a args s o os,
+    is_class_name cls -> cl_ptypes cl = cls :: pts -> List.length (a :: args) = List.length (cl_params cl) ->
+    run ev k (objs_of (a :: args)) s = (RVal (o :: os), s) -> (forall attrs, o <> Some (ODyn cls attrs)) ->
+    run ev k (try_plain cl (a :: args)) s = (RVal None, s).
+Proof. exact method_refuses_other_classes. Qed.
+Print Assumptions C03_method_refuses_other_classes.
+
+(* a constructor call answers the object made for it, whatever the body's last value or `return` was *)
+Theorem C03_constructor_answers_its_object :
+  forall (ev : ast -> M dloc) k cl cls args s d s',
+    cl_kind cl = CKCtor cls -> run ev k (try_closure cl args) s = (RVal (Some d), s') ->
+    d = DL (List.length (s_data s)) /\ S (List.length args) = List.length (cl_params cl).
+Proof. exact constructor_answers_its_object. Qed.
+Print Assumptions C03_constructor_answers_its_object.
+
+(* reading an existing attribute answers the attribute's own Boxed_Value (so `o.x = v`, `o.x += 1` reach the object) and changes nothing *)
+Theorem C03_attribute_identity :
+  forall (ev : ast -> M dloc) k o cn attrs name d s,
+    run ev k (obj_of o) s = (RVal (Some (ODyn cn attrs)), s) -> assoc attrs name = Some d ->
+    run ev k (get_attr o name) s = (RVal d, s).
+Proof. exact attribute_identity. Qed.
+Print Assumptions C03_attribute_identity.
